@@ -286,6 +286,8 @@ func exec(t []string) string {
 		return fStore(parseHex(t[1]))
 	case t[0] == "f.state" && len(t) == 1:
 		return fState()
+	case t[0] == "x.fetch":
+		return xFetch(t[1:])
 	case t[0] == "e2e.fetch" && len(t) == 3:
 		return e2eFetch(atoi(t[1]), atoi(t[2]), false)
 	case t[0] == "e2e.fetchq" && len(t) == 3:
